@@ -6,7 +6,6 @@ package gitinterface
 import (
 	"fmt"
 	"sort"
-	"strings"
 )
 
 // GetFilePathsChangedByCommit returns the paths changed by the commit relative
@@ -25,36 +24,39 @@ func (r *Repository) GetFilePathsChangedByCommit(commitID Hash) ([]string, error
 	}
 
 	if len(parentCommitIDs) == 0 {
-		filePaths, err := r.executor("ls-tree", "--name-only", "-r", commitID.String()).executeString()
+		// -z is used here and below so that path names are NUL terminated and
+		// never quoted: names with spaces, quotes, control or non-ASCII
+		// characters must reach the file rules verbatim
+		paths, err := r.executor("ls-tree", "--name-only", "-r", "-z", commitID.String()).executeNULTerminated()
 		if err != nil {
 			return nil, fmt.Errorf("unable to identify all commit file paths: %w", err)
 		}
 
-		paths := strings.Split(filePaths, "\n")
+		if len(paths) == 0 {
+			// callers expect one (empty) path for a commit with an empty tree
+			return []string{""}, nil
+		}
+
 		return paths, nil
 	}
 
 	if len(parentCommitIDs) > 1 {
 		// Check if tree matches last commit
-		stdOut, err := r.executor("diff-tree", "--no-commit-id", "--name-only", "-r", parentCommitIDs[len(parentCommitIDs)-1].String(), commitID.String()).executeString()
+		lastParentPaths, err := r.executor("diff-tree", "--no-commit-id", "--name-only", "-r", "-z", parentCommitIDs[len(parentCommitIDs)-1].String(), commitID.String()).executeNULTerminated()
 		if err != nil {
 			return nil, fmt.Errorf("unable to diff commit against last parent commit: %w", err)
 		}
-		if stdOut == "" {
+		if len(lastParentPaths) == 0 {
 			return nil, nil
 		}
 
 		pathSet := map[string]bool{}
 		for _, parentCommitID := range parentCommitIDs {
-			stdOut, err := r.executor("diff-tree", "--no-commit-id", "--name-only", "-r", parentCommitID.String(), commitID.String()).executeString()
+			paths, err := r.executor("diff-tree", "--no-commit-id", "--name-only", "-r", "-z", parentCommitID.String(), commitID.String()).executeNULTerminated()
 			if err != nil {
 				return nil, fmt.Errorf("unable to diff commit against parent: %w", err)
 			}
-			if stdOut == "" {
-				continue
-			}
 
-			paths := strings.Split(stdOut, "\n")
 			for _, path := range paths {
 				if path == "" {
 					continue
@@ -75,14 +77,13 @@ func (r *Repository) GetFilePathsChangedByCommit(commitID Hash) ([]string, error
 		return paths, nil
 	}
 
-	stdOut, err := r.executor("diff-tree", "--no-commit-id", "--name-only", "-r", fmt.Sprintf("%s~1", commitID.String()), commitID.String()).executeString()
+	paths, err := r.executor("diff-tree", "--no-commit-id", "--name-only", "-r", "-z", fmt.Sprintf("%s~1", commitID.String()), commitID.String()).executeNULTerminated()
 	if err != nil {
 		return nil, fmt.Errorf("unable to diff commit against parent: %w", err)
 	}
-	if stdOut == "" {
+	if len(paths) == 0 {
 		return nil, nil
 	}
 
-	paths := strings.Split(stdOut, "\n")
 	return paths, nil
 }
